@@ -84,6 +84,34 @@ class SplitOrGuards(Edit):
     def describe(self):
         return f"rewrite: {self.n} match arm(s) `A | B if g => e` split into one arm per alternative with the same guard and body (Verus does not accept an or-pattern with a guard)"
 
+class HoistClosure(Edit):
+    """`mac!(.., |x: T| BODY)` where the closure is the last argument of a macro_rules! invocation: the closure is bound to a local
+    first (`let name = |x: T| -> (r: R) CONTRACT { BODY };  mac!(.., name)`), because Verus' closure contract syntax does not parse as
+    a macro_rules `expr` fragment. The body text is unchanged; evaluation order is unchanged (a closure literal has no effect)."""
+    kind = "rewrite"
+    def __init__(self, macro_start, closure_head, ret, contract, name="hoisted_closure", why=""):
+        self.macro_start, self.head, self.ret, self.contract, self.name, self.why = macro_start, closure_head, ret, contract, name, why
+    def apply(self, text, ctx):
+        if text.count(self.macro_start) != 1 or text.count(self.head) != 1:
+            raise ExtractError(f"{ctx}: HoistClosure anchors matched {text.count(self.macro_start)}x / {text.count(self.head)}x")
+        a = text.index(self.head)
+        # the closure body runs to the `)` that closes the macro invocation: find it by bracket matching from the macro's `(`
+        m0 = text.index(self.macro_start)
+        k = text.index("(", m0); depth = 0; e = k
+        while True:
+            if text[e] in "([{": depth += 1
+            elif text[e] in ")]}":
+                depth -= 1
+                if depth == 0: break
+            e += 1
+        body = text[a + len(self.head):e].rstrip()
+        line_start = text.rfind("\n", 0, m0) + 1
+        indent = text[line_start:m0]
+        let = f"{indent}let {self.name} = {self.head.rstrip()} -> (r: {self.ret}) {self.contract} {{ {body} }};\n"
+        return text[:line_start] + let + text[line_start:a] + self.name + text[e:]
+    def describe(self):
+        return f"rewrite: closure argument `{self.head.strip()} …` of `{self.macro_start.strip()} …` bound to a local `{self.name}` and given a contract ({self.why})"
+
 class Between(Edit):
     """replace the text from the first occurrence of `start` through the first occurrence of `end` after it
     (both inclusive) by `new`: a hole whose dropped text is identified by its two ends and its sha256"""
